@@ -2219,7 +2219,7 @@ impl Formatter {
           branch, pattern, guard, expr, terminal
         ));
       } else {
-        lines.push(format!("{}{}{} ⇒ {}{}", branch, pattern, guard, expr, terminal));
+        lines.push(format!("  {} {}{} ⇒ {}{}", branch, pattern, guard, expr, terminal));
       }
     }
     lines.push(if self.html {
@@ -2236,7 +2236,8 @@ impl Formatter {
         lines.iter().skip(1).cloned().collect::<Vec<_>>().join("")
       )
     } else {
-      lines.join("\n")
+      // No blank lines around the arms: a blank line ends the statement the match belongs to.
+      lines.into_iter().filter(|line| !line.is_empty()).collect::<Vec<String>>().join("\n")
     }
   }
 
